@@ -76,6 +76,25 @@ def observe(bu, isa):
         bu.intervals[si]) if si < len(bu.intervals) else 0:]]
         for si, row in enumerate(ob.iv_order)]
 
+    def locate(si, lin):
+        """(is a new interval, bytes from that position to the interval's
+        end) for a linear position of section si"""
+        norig = len(bu.intervals[si]) if si < len(bu.intervals) else 0
+        at_end = None
+        for k, bi in enumerate(ob.iv_order[si]):
+            b0 = base[id(bi)][1]
+            lead = 0
+            if k < norig and leads and si < len(leads):
+                lead = leads[si][k]
+            if b0 + lead <= lin <= b0 + bi.size:
+                off = lin - b0
+                res = (k >= norig, bytes(bi.contents[off:bi.size]))
+                if lin < b0 + bi.size:
+                    return res
+                at_end = at_end or res
+        return at_end
+    ob.locate = locate
+
     def blockpos(b, at_end=False):
         bi = b.byte_interval
         if bi is None or id(bi) not in base:
@@ -101,6 +120,7 @@ def observe(bu, isa):
     ob.proxykey = proxykey
 
     # symbols
+    orig_ids = {id(bi) for row in bu.intervals for bi in row}
     ob.symbols = {}
     for s in m.symbols:
         r = s.referent
@@ -115,7 +135,15 @@ def observe(bu, isa):
             if p is None or r.module is not m:
                 ob.symbols.setdefault(s.name, []).append(("detached",))
             else:
-                ob.symbols.setdefault(s.name, []).append(("pos",) + p)
+                # 4th field: for a referent in an interval the rewrite
+                # added, the bytes from the symbol to the interval's end
+                bi = r.byte_interval
+                newiv = None
+                if id(bi) not in orig_ids:
+                    off = r.offset + (r.size if s.at_end else 0)
+                    newiv = bytes(bi.contents[off:bi.size])
+                ob.symbols.setdefault(s.name, []).append(
+                    ("pos",) + p + (newiv,))
 
     # instructions
     md = decoder(isa)
